@@ -1497,6 +1497,15 @@ func (c *CAManager) AuthorizeAndSignCertificate(csr *x509.CertificateRequest, au
 		if err := allow.NodeWriteAllowed(v.Agent, &authzContext); err != nil {
 			return nil, err
 		}
+
+		// Verify that the DC in the agent URI matches us, like for every
+		// other kind of identity: node:write in this datacenter must not
+		// yield a certificate for the same node name in another one.
+		dc := c.serverConf.Datacenter
+		if v.Datacenter != dc {
+			return nil, connect.InvalidCSRError("SPIFFE ID in CSR from a different datacenter: %s, "+
+				"we are %s", v.Datacenter, dc)
+		}
 	case *connect.SpiffeIDMeshGateway:
 		// TODO(peering): figure out what is appropriate here for ACLs
 		v.GetEnterpriseMeta().FillAuthzContext(&authzContext)
